@@ -22,7 +22,7 @@ BOUNDS = {
     "bump_levels": "default precedence order; 3x3x3x2x2x2 variable assignments x 7 levels x override {None,0,7} x bump {None,0,2}; u64::MAX overflow probe",
     "presets_tier": "6 smart presets x dirty {None,false,true} x distance {None,0,3} x pre x post x epoch",
     "timestamp": "16 documented patterns x 7 instants (1970..2199) against chrono called directly",
-    "schema_validate": "~5000 schemas from a pool of 13 components (lists up to length 2 per section)",
+    "schema_validate": "~5000 schemas from a pool of 13 components (lists up to length 2 per section, plus all orders of major/minor/patch with and without literals in between)",
     "semver_parts": "5 SemVer and 5 PEP 440 sample versions",
     "pep440_display": "5 SemVer and 5 PEP 440 sample versions",
     "resolve_barrier": "15 texts (incl. non-ASCII, fullwidth, whitespace) x 19 variables x 2 presets",
